@@ -486,6 +486,56 @@ pub fn run_c19(ctx: &mut Ctx) {
                     variants.push(("same-names-in-ancestor-of-M", v));
                 }
             }
+            // a module whose path is that of a TYPE the observed module imports by name; it
+            // defines every short name the observed module mentions
+            {
+                let item_paths: Vec<String> = g.mods.iter().flat_map(|(p, m)| m.definitions.iter().map(move |d| format!("{p}::{}", d.name))).collect();
+                let imported: Vec<String> = g.mods[mi].1.uses.iter().map(|u| u.to_string()).filter(|u| item_paths.contains(u)).collect();
+                if let Some(target) = imported.first() {
+                    let mut names: Vec<String> = vec![];
+                    for d in &g.mods[mi].1.definitions {
+                        if let ItemDefinitionInner::Type(td) = &d.inner {
+                            for st in &td.statements {
+                                if let TypeField::Field(_, _, t) = &st.field {
+                                    refprog::Env::names_in(t, &mut names);
+                                }
+                            }
+                        }
+                    }
+                    names.sort();
+                    names.dedup();
+                    let mut squat = Module::new();
+                    for n in names.iter().filter(|n| crate::refmodel::builtin(n).is_none()) {
+                        squat.definitions.push(ItemDefinition::new(
+                            (Visibility::Public, n.as_str()),
+                            TypeDefinition::new([TypeStatement::field((Visibility::Public, "w"), Type::ident("u8").const_pointer().array(5))]),
+                        ));
+                    }
+                    if !squat.definitions.is_empty() && !g.mods.iter().any(|(p, _)| &p.to_string() == target) {
+                        let mut v = g.mods.clone();
+                        v.push((ItemPath::from(target.as_str()), squat));
+                        variants.push(("module-at-the-path-of-an-imported-type", v));
+                    }
+                }
+            }
+            // a module that the observed module knows nothing about exposes the observed module's
+            // private types in its own public fields
+            {
+                let private: Vec<String> = g.mods[mi].1.definitions.iter().filter(|d| d.visibility == Visibility::Private).map(|d| d.name.to_string()).collect();
+                if !private.is_empty() {
+                    let mut exposer = Module::new();
+                    let mut fields = vec![];
+                    for (k, n) in private.iter().enumerate() {
+                        exposer.uses.push(ItemPath::from(format!("{mpath}::{n}").as_str()));
+                        fields.push(TypeStatement::field((Visibility::Public, format!("p{k}").as_str()), Type::ident(n).mut_pointer()));
+                        fields.push(TypeStatement::field((Visibility::Public, format!("a{k}").as_str()), Type::ident(n).const_pointer().array(2)));
+                    }
+                    exposer.definitions.push(ItemDefinition::new((Visibility::Public, "Exposer"), TypeDefinition::new(fields)));
+                    let mut v = g.mods.clone();
+                    v.push((ItemPath::from(format!("{id}exposer").as_str()), exposer));
+                    variants.push(("private-types-exposed-by-another-module", v));
+                }
+            }
             // filler to change hash-map capacity
             {
                 let mut filler = Module::new();
